@@ -57,7 +57,7 @@ func vRunTemplate(src string, nvars int, depth int) {
 	}
 }
 
-//vh:prop=C01 tiers=quick,thorough sigkeys=template,x_kind,y_kind,z_kind unwind=3 unwind_ok=1 summaries=Roll:roll-contract maxsteps=8000000 budget_s=900 quick:P.depth=0 thorough:P.depth=1 thorough:P.history=1 bounds="every one-operand template (one per opcode/builtin/method) with the operand ranging over all script value kinds (quick: scalars int/float/string/null; thorough: also arrays, dicts, computed, functions, native functions; containers <=2 elements, depth 1), integer and float payloads symbolic (64-bit / Float64); loops whose trip count is a symbolic value are unrolled 3 times (deeper continuations cut and counted); dice are Roll contract values; IgnoreDiv0 symbolic, min/max dice mode symbolic booleans, op budget 30000; all observers afterwards (thorough: and a second Run on the same VM)"
+//vh:prop=C01 tiers=quick,thorough sigkeys=template,x_kind,y_kind,z_kind unwind=3 unwind_ok=1 summaries=Roll:roll-contract maxsteps=8000000 budget_s=900 quick:P.depth=0 thorough:P.depth=1 thorough:P.history=1 bounds="every one-operand template (one per opcode/builtin/method) with the operand ranging over all script value kinds (quick: scalars int/float/string/null; thorough: also arrays, dicts, computed, functions, native functions; containers <=2 elements, depth 1), integer and float payloads symbolic (64-bit / Float64); loops whose trip count is a symbolic value are unrolled 3 times and allocations of symbolic size are followed up to 8 elements (deeper continuations cut and counted); dice are Roll contract values; IgnoreDiv0 symbolic, min/max dice mode symbolic booleans, op budget 30000; all observers afterwards (thorough: and a second Run on the same VM)"
 func VH_C01_ops1() {
 	t := vParam("template", -1)
 	if t < 0 {
@@ -96,7 +96,7 @@ func vRepeat(s string, n int) string {
 // blocks, template holes, loops with continue/break inside if, long array
 // literals, parse budget, recursion under a budget.
 //
-//vh:prop=C01 tiers=quick,thorough sigkeys=prog maxsteps=400000000 budget_s=900 bounds="concrete boundary programs: nesting 19/20/21/22 of if/while/template holes, continue/break inside if x25 iterations, array literal 511/512/513, parse budget 10, recursion with op budget 30000, 8190..8194 instructions"
+//vh:prop=C01 tiers=quick,thorough sigkeys=prog maxdepth=60000 maxsteps=400000000 budget_s=900 bounds="concrete boundary programs: nesting 19/20/21/22 of if/while/template holes, continue/break inside if x25 iterations, array literal 511/512/513, parse budget 10, recursion with op budget 30000, 8190..8194 instructions"
 func VH_C01_cap() {
 	var progs []string
 	for _, n := range []int{19, 20, 21, 22} {
